@@ -200,6 +200,12 @@ def helper_shape(run, f, sp):
             if okr:
                 src = strip_wrappers(otr.norm(otr.call_args(c[1])[0]))
                 okr = src[0] == "call" and src[2].startswith("std::sync::mpsc::Receiver") and src[2].endswith("recv")
+        if not okr:
+            # the same tail written as `rx.recv().unwrap_or_else(|_| Err(..))`: what the helper sent, or an Err if it died
+            r2 = strip_wrappers(otr.norm(otr.local(0)))
+            if r2[0] == "call" and r2[2].startswith("std::result::Result") and r2[2].endswith("unwrap_or_else"):
+                src = strip_wrappers(otr.norm(otr.call_args(r2[1])[0]))
+                okr = src[0] == "call" and src[2].startswith("std::sync::mpsc::Receiver") and src[2].endswith("recv")
         run.require(okr, "O17.3", "caller-returns-helper-result:%s" % fnname, "%s does not return `rx.recv().map_err(..)?`: %s" % (fnname, show(ret)), "returns what rx.recv() yields; dead helper => Err", loc=site.loc)
     run.require(n >= 2, "O17.3", "helper-floor", "only %d thread helpers found" % n, "%d thread helpers" % n)
 
